@@ -30,6 +30,7 @@ import (
 	"github.com/bartossh/Computantis/src/protobufcompiled"
 	"github.com/bartossh/Computantis/src/spice"
 	"github.com/bartossh/Computantis/src/transaction"
+	"github.com/bartossh/Computantis/src/transformers"
 	"github.com/bartossh/Computantis/src/wallet"
 )
 
@@ -452,6 +453,48 @@ func race(tier string, seed int64) (evals int, kinds map[string]int) {
 		kinds["mixed-8-goroutines"]++
 		e.close()
 	}
+	if tier == "thorough" {
+		// the node's own truncation loop (Config.Truncate = 2000) crossed by concurrent proposals and reads
+		ver := wallet.NewVerifier()
+		mk := func() *wallet.Wallet { w, _ := wallet.New(); return &w }
+		a := &env{node: mk(), issuer: mk(), recv: mk(), sealer: mk()}
+		ctx, cancelAll := context.WithCancel(context.Background())
+		a.cancel = cancelAll
+		ab, err := accountant.NewAccountingBook(ctx, accountant.Config{Truncate: 2000}, ver, a.node, nolog{})
+		if err == nil {
+			a.ab = ab
+			ab.CreateGenesis("Genesis Vertex", spice.New(1<<40, 0), []byte{}, a.issuer.Address())
+			ab.AddTrustedNode(a.node.Address())
+			var wg sync.WaitGroup
+			var mu sync.Mutex
+			made := 0
+			for g := 0; g < 3; g++ {
+				wg.Add(1)
+				go func() {
+					defer wg.Done()
+					for {
+						mu.Lock()
+						made++
+						k := made
+						mu.Unlock()
+						if k > 3200 {
+							return
+						}
+						t, _ := transaction.New(fmt.Sprintf("rauto-%d", k), spice.New(0, 0), []byte("d"), a.recv.Address(), a.issuer)
+						a.ab.CreateLeaf(context.Background(), &t)
+						if k%200 == 0 {
+							a.ab.CalculateBalance(context.Background(), a.issuer.Address())
+						}
+					}
+				}()
+			}
+			wg.Wait()
+			time.Sleep(200 * time.Millisecond)
+			evals++
+			kinds["own-truncation-loop|propose|balance"]++
+			a.close()
+		}
+	}
 	// truncation concurrently with reads and proposals (one long history)
 	e := newEnv(1010)
 	var wg sync.WaitGroup
@@ -544,7 +587,32 @@ func raceGossip(rounds int) (evals int, kinds map[string]int) {
 		name string
 		f    func(int)
 	}
-	gops := []gop{{"announce", announce}, {"discover", discover}, {"fetch-parent", fetch}, {"gossip-vertex", gossipOn}}
+	// the origin loop fanning a locally created vertex out to several peers (one goroutine per peer)
+	g2 := gossip.VerifNewGossiper(nolog{}, time.Second, e.node, ver, e.ab, hip, fl, pipe.New(16, 16), "fan",
+		map[string]protobufcompiled.GossipAPIClient{"p1": deadPeer{}, "p2": deadPeer{}, "p3": deadPeer{}, "p4": deadPeer{}})
+	fanCtx, fanStop := context.WithCancel(context.Background())
+	defer fanStop()
+	jug := pipe.New(16, 16)
+	g3 := gossip.VerifNewGossiper(nolog{}, time.Second, e.node, ver, e.ab, hip, fl, jug, "fan-origin",
+		map[string]protobufcompiled.GossipAPIClient{"p1": deadPeer{}, "p2": deadPeer{}, "p3": deadPeer{}, "p4": deadPeer{}})
+	go g3.RunVertexGossip(fanCtx)
+	go g3.RunTransactionGossip(fanCtx)
+	fanOut := func(i int) {
+		t, _ := transaction.New(fmt.Sprintf("fan%d-%d", i, rand.Int63()), spice.New(1, 0), nil, e.recv.Address(), e.issuer)
+		if v, err := e.ab.CreateLeaf(context.Background(), &t); err == nil {
+			jug.SendVrx(&v)
+			// and the relay path: an accepted gossiped vertex is forwarded to every peer not yet listed
+			t2, _ := transaction.New(fmt.Sprintf("rel%d-%d", i, rand.Int63()), spice.New(1, 0), nil, e.recv.Address(), e.issuer)
+			v2, _ := accountant.NewVertex(t2, v.Hash, v.Hash, v.Weight+1, e.sealer)
+			g2.Server().GossipVrx(context.Background(), &protobufcompiled.VrxMsgGossip{Vertex: gossip.VerifMapVertexToProto(&v2)})
+		}
+		tt, _ := transaction.New(fmt.Sprintf("fant%d-%d", i, rand.Int63()), spice.New(1, 0), []byte("d"), e.recv.Address(), e.issuer)
+		if pt, err := transformers.TrxToProtoTrx(tt); err == nil {
+			jug.SendTrx(pt)
+		}
+		time.Sleep(2 * time.Millisecond)
+	}
+	gops := []gop{{"announce", announce}, {"discover", discover}, {"fetch-parent", fetch}, {"gossip-vertex", gossipOn}, {"fan-out", fanOut}}
 	for r := 0; r < rounds; r++ {
 		for i := range gops {
 			for j := i; j < len(gops); j++ {
